@@ -693,6 +693,30 @@ func enumC01m(seed int64, thorough bool) []func() []wcaseT {
 			return []wcaseT{{run, gen.Make(shape, run.Seed, run.Size)}}
 		})
 	}
+	// the boundary values of the LZ family (distances and literal runs around 2^16) through the stream API as well
+	var bshapes []string
+	for v := 65533; v <= 65538; v++ {
+		bshapes = append(bshapes, fmt.Sprintf("look:%d", v), fmt.Sprintf("dist:%d", v))
+	}
+	for v := 65790; v <= 65800; v++ {
+		bshapes = append(bshapes, fmt.Sprintf("litrun:%d", v))
+	}
+	for bi, shape := range bshapes {
+		for ti, tf := range []string{"LZ", "LZX"} {
+			bi, ti, tf, shape := bi, ti, tf, shape
+			gens = append(gens, func() []wcaseT {
+				g := 9500 + 2*bi + ti
+				run := &writerRun{Run: g, Mode: "c01m", Seed: seed*67 + int64(g), After: "close", Shape: shape}
+				run.Size = 400000
+				if strings.HasPrefix(shape, "look") || strings.HasPrefix(shape, "dist") {
+					run.Size = 100000 // the short-distance mode of the codecs (blocks below 256 KiB)
+				}
+				run.W = kz.Cfg{Transform: tf, Entropy: []string{"NONE", "HUFFMAN"}[(bi+ti)%2], Block: 1 << 20, Jobs: 1, Ck: []uint{0, 32}[bi%2], Hint: -1}
+				run.RJobs = 1
+				return []wcaseT{{run, gen.Make(shape, run.Seed, run.Size)}}
+			})
+		}
+	}
 	// ... and the matrix transform x data shape with entropy NONE on several blocks (block boundaries inside the data: state carried
 	// from block to block, shapes whose blocks start / end in a particular way such as crlfsplit)
 	for ti, tf := range transformNames {
